@@ -119,8 +119,21 @@ def run_mc(module, cfg, workers=8, expect_violation=False, consts=None, tag=None
     return r
 
 
-def run_vdriver(cases, tag, keep=None, detail=0, outdir=None, extra=None):
-    """Write cases (list of dicts) to ndjson, run the driver on the REAL generator, return trace path."""
+def _vdriver_once(cpath, tpath, keep, detail, outdir, extra, timeout):
+    cmd = [VDRIVER, "gen", cpath, tpath, "--detail", str(detail)]
+    if keep is not None:
+        cmd += ["--keep", ",".join(keep)]
+    if outdir:
+        cmd += ["--out", outdir]
+    if extra:
+        cmd += extra
+    return run(cmd, timeout=timeout)
+
+
+def run_vdriver(cases, tag, keep=None, detail=0, outdir=None, extra=None, case_timeout=None):
+    """Write cases (list of dicts) to ndjson, run the driver on the REAL generator, return trace path.
+    With case_timeout (seconds) a batch that does not finish is re-run one case per child process;
+    a case that still does not return is recorded as an observation ret.kind = "timeout"."""
     build_harness()
     d = os.path.join(WORK, "runs", tag)
     shutil.rmtree(d, ignore_errors=True)
@@ -130,18 +143,30 @@ def run_vdriver(cases, tag, keep=None, detail=0, outdir=None, extra=None):
         for c in cases:
             f.write(json.dumps(c) + "\n")
     tpath = os.path.join(d, "trace.ndjson")
-    cmd = [VDRIVER, "gen", cpath, tpath, "--detail", str(detail)]
-    if keep is not None:
-        cmd += ["--keep", ",".join(keep)]
-    if outdir:
-        cmd += ["--out", outdir]
-    if extra:
-        cmd += extra
     t0 = time.time()
-    rc, out = run(cmd, timeout=3000)
-    if rc != 0:
-        log(out[-3000:])
-        raise ToolError("vdriver failed (rc=%d)" % rc)
+    try:
+        rc, out = _vdriver_once(cpath, tpath, keep, detail, outdir, extra, (30 + 0.1 * len(cases)) if case_timeout else 3000)
+        if rc != 0:
+            log(out[-3000:])
+            raise ToolError("vdriver failed (rc=%d)" % rc)
+    except subprocess.TimeoutExpired:
+        if not case_timeout:
+            raise ToolError("vdriver timed out")
+        log("[drive] batch did not finish; isolating cases (%ds each)" % case_timeout)
+        with open(tpath, "w") as tf:
+            for i, c in enumerate(cases):
+                cp1 = os.path.join(d, "one.ndjson")
+                tp1 = os.path.join(d, "one.trace")
+                open(cp1, "w").write(json.dumps(c) + "\n")
+                try:
+                    rc, out = _vdriver_once(cp1, tp1, keep, detail, outdir, extra, case_timeout)
+                    if rc != 0:
+                        raise ToolError("vdriver failed on case %s" % c["id"])
+                    tf.write(open(tp1).read())
+                except subprocess.TimeoutExpired:
+                    tf.write(json.dumps({"ev": "case", "id": c["id"], "family": c.get("family", ""), "has_s": False, "opts": c.get("opts", {})}) + "\n")
+                    tf.write(json.dumps({"ev": "obs", "id": c["id"], "ret": {"kind": "timeout", "seconds": case_timeout},
+                                         "oracle": {"parse": {"ok": True}}, "work": [0, 0, 0, 0], "micros": case_timeout * 1000000}) + "\n")
     log("[drive] %d cases through the real generator in %.1fs (%s)" % (len(cases), time.time() - t0, tag))
     return tpath
 
